@@ -102,7 +102,8 @@ ATTR_ALPHABET = {
     'originator-id': ['10.0.0.9'],
     'cluster-list': [['10.0.0.1'], ['10.0.0.1', '10.0.0.2', '10.0.0.3']],
     'aigp': [0, 100, 2**64 - 1],
-    'attribute': [(0x99, 0xC0, '0102'), (0x99, 0x80, ''), (0xF0, 0xC0, 'ab' * 300)],
+    # the fourth asks for the Extended Length bit on a 4-octet value (legal: RFC 4271 4.3 only says when it MUST be used)
+    'attribute': [(0x99, 0xC0, '0102'), (0x99, 0x80, ''), (0xF0, 0xC0, 'ab' * 300), (0x99, 0xD0, '00000064')],
 }
 WELLKNOWN_COMM = {'no-export': 0xFFFFFF01, 'no-advertise': 0xFFFFFF02, 'no-export-subconfed': 0xFFFFFF03}
 
